@@ -20,6 +20,7 @@ var c18Stems = []string{"mod", "util", "core", "init", "x"}
 type c18Tree struct {
 	files []string // workspace-relative paths of module files (.lua, dotted .lua, .so)
 	cur   string   // the requiring file
+	sib   bool     // sib.lua exists next to the requiring file and in a directory that sorts before it
 }
 
 func genC18Tree(r *lib.Rng) c18Tree {
@@ -51,6 +52,19 @@ func genC18Tree(r *lib.Rng) c18Tree {
 		comps = append(comps, c18Dirs[r.Intn(len(c18Dirs))])
 	}
 	t.cur = strings.Join(append(comps, "main_q.lua"), "/")
+	if r.Chance(1, 3) {
+		// the same module next to the requiring file and in a directory that sorts first: the sibling has the
+		// strictly better score for every consumer (analysis, definition, hover)
+		d := []string{"lib", "mod", "util"}[r.Intn(3)]
+		t.cur = d + "/main_q.lua"
+		for _, p := range []string{"a/sib.lua", d + "/sib.lua"} {
+			if !seen[p] {
+				seen[p] = true
+				t.files = append(t.files, p)
+			}
+		}
+		t.sib = true
+	}
 	sort.Strings(t.files)
 	return t
 }
@@ -187,6 +201,9 @@ func runC18(res *lib.Result, tier string, seed int64, args []string) error {
 		r := root.Fork(uint64(5000000 + wi))
 		t := genC18Tree(r)
 		mods := genC18Modules(r, t)
+		if t.sib {
+			mods = append(mods, "sib")
+		}
 		// dofile("<path>.lua") references (resolved by exact path first, then by suffix match)
 		for k := r.Intn(3); k > 0; k-- {
 			f := t.files[r.Intn(len(t.files))]
